@@ -157,7 +157,7 @@ Section Spec.
         match l with
         | [] => None
         | b :: _ =>
-            if b =? 0 then Some (acc, rev recs, l) else
+            if b =? 0 then Some (acc, frev recs, l) else
             olet! (h, r1) <- s_block_header l;
             olet! (data, r2) <- sdec (sb_filters h) r1;
             let csize := zlen r1 - zlen r2 in
@@ -235,7 +235,7 @@ Section Spec.
         let '(n, r2) := s_strip_zeros r1 0 in
         olet! _ <- guard (n mod 4 =? 0);
         match r2 with
-        | [] => Some (rev acc1)
+        | [] => Some (frev acc1)
         | _ => s_streams f lenient r2 acc1
         end
     end.
@@ -247,7 +247,7 @@ Section Spec.
 
   (* only the first Stream; returns the data and what follows the Stream Footer *)
   Definition xz_spec_decode_first (lenient : bool) (l : list Z) : option (list Z * list Z) :=
-    olet! (acc, r) <- s_stream lenient l []; Some (rev acc, r).
+    olet! (acc, r) <- s_stream lenient l []; Some (frev acc, r).
 End Spec.
 
 (* ------------------------------------------------------------------------------------------- *)
@@ -298,7 +298,7 @@ Section LzSpec.
     | S f =>
         olet! (data, r) <- s_lz_member l;
         let acc1 := rev_append data acc in
-        if s_lz_has_id r then s_lz_members f r acc1 else Some (rev acc1, r)
+        if s_lz_has_id r then s_lz_members f r acc1 else Some (frev acc1, r)
     end.
 
   Definition lz_spec_decode (l : list Z) : option (list Z * list Z) :=
